@@ -160,6 +160,21 @@ def monitors(cfg, ops, out, rc, consts, which):
         if not isinstance(p, Pass):
             continue
         done = [l.split() for l in p.evs if l.startswith("EV DONE")]
+        # which completion events belong to which device: dev_post_poll visits the devices in order, each device's events are contiguous and its
+        # queue only loses a prefix; exact only when nothing was enqueued since the previous dump (the dump is taken after passes only)
+        alloc = None
+        if prev is not None and not p.init and not p.enq_since and len(prev.devs) == len(p.devs):
+            dn_idx = [k for k, l in enumerate(p.evs) if l.startswith("EV DONE")]
+            alloc, k = {}, 0
+            for d in p.devs:
+                i = d["idx"]
+                q0 = [a["client"] for a in prev.devs[i]["acts"] if a["client"] >= 100]
+                q1 = [a["client"] for a in d["acts"] if a["client"] >= 100]
+                g = 0
+                while g < len(q0) and q0[g:] != q1[:len(q0) - g]: g += 1
+                alloc[i] = dn_idx[k:k + g]; k += g
+                if [int(p.evs[j].split()[2]) for j in alloc[i]] != q0[:g]: alloc = None; break
+            if alloc is not None and k != len(dn_idx): alloc = None
         for d in p.devs:
             i = d["idx"]
             if "fd" in which:        # C07_fd_state
@@ -193,20 +208,21 @@ def monitors(cfg, ops, out, rc, consts, which):
                         bad.append(("fifo", "completion-order", "device %d: queue %s -> %s but completions in this pass were %s" % (i, q0, q1, dn)))
                     if any(c in q0 for c in new) or (not p.enq_since and new):
                         bad.append(("fifo", "queue-order", "device %d: queue %s -> %s is not drop-a-prefix/append" % (i, q0, q1)))
-                if "timeout" in which:   # C12_timeout_fails_queue: a timed-out head takes the whole queue with it, with failure codes
+                if "timeout" in which and alloc is not None:   # C12_timeout_fails_queue: the head that _process_action finds past its deadline takes the whole queue with it
                     h0 = prev.devs[i]["acts"][0] if prev.devs[i]["acts"] else None
-                    firstdone = next((k for k, l in enumerate(p.evs) if l.startswith("EV DONE")), len(p.evs))
-                    moved = (any(l in ("EV CONN %d" % i, "EV DISC %d" % i) for l in p.evs[:firstdone]) or (prev.devs[i]["cs"] == 1 and d["cs"] == 2)
+                    own = alloc[i]
+                    first_own = own[0] if own else len(p.evs)
+                    # the head of the previous dump is NOT what _process_action saw if this device disconnected / connected earlier in the pass
+                    # (descriptor error -> _reconnect drops a head login; a connection that came up puts a fresh login in front)
+                    moved = (any(l in ("EV CONN %d" % i, "EV DISC %d" % i) for l in p.evs[:first_own]) or (prev.devs[i]["cs"] == 1 and d["cs"] == 2)
                              or (bool(d["acts"]) and d["acts"][0]["com"] == login and len(d["acts"]) > 1 and h0 is not None and h0["com"] != login
                                  and d["acts"][1]["client"] == h0["client"] and d["acts"][1]["stamp"] == h0["stamp"]))
-                    # (a connection that came (back) up in this pass puts a fresh login in front: the old head waits for it)
                     if h0 and h0["stamp"] is not None and h0["stamp"] + timeouts[i] <= p.now and not moved:
-                        if any(c in q1 for c in q0):
+                        if q1 and any(c in q1 for c in q0):
                             bad.append(("timeout-abort", "left-queued", "device %d: head deadline %d passed at %d but %s still queued | before: %s | after: %s | events: %s" % (i, h0["stamp"] + timeouts[i], p.now, [c for c in q0 if c in q1], prev.devs[i]["line"][:300], d["line"][:300], p.evs[:12])))
-                        for c in set(q0):
-                            e = [int(x[3]) for x in done if int(x[2]) == c]
-                            if len(e) < q0.count(c) or 0 in e:
-                                bad.append(("timeout-abort", "not-failed", "device %d: client %d queued behind a timed-out head got completions %s" % (i, c, e)))
+                        errs = [int(p.evs[j].split()[3]) for j in own]
+                        if len(own) < len(q0) or 0 in errs:
+                            bad.append(("timeout-abort", "not-failed", "device %d: queue %s behind a timed-out head got completions %s (this device's share of the pass)" % (i, q0, errs)))
                 if "backoff" in which:   # C12_backoff_pass
                     nconn = sum(1 for l in p.evs if l == "EV CONN %d" % i)
                     pr, pl = prev.devs[i]["retry"], prev.devs[i]["lastretry"]
@@ -313,12 +329,37 @@ def load_corpus(pid):
     return out
 
 
+class _CorpusCfg:
+    """a configuration kept as text (corpus cases): what run_impl and the monitors need"""
+    class _D:
+        def __init__(self, t): self.timeout = t
+    def __init__(self, text, timeouts): self._text, self.devs = text, [self._D(t) for t in timeouts]
+    def text(self): return self._text
+
+
+def corpus_monitor_cases(ctx, V, which, consts, devh):
+    """corpus/<pid>/*.json of kind rdev-monitor: histories on which a monitor clause once alarmed although the implementation is right
+    (must pass), or on which it was right (must be reported again if the defect returns): implementation + monitors, no model"""
+    global BACKOFF
+    for k, c in enumerate(load_corpus(ctx.pid)):
+        if c.get("kind") != "rdev-monitor": continue
+        cfg = _CorpusCfg(c["config"], c["timeouts"])
+        rc, o, e = C08.run_impl(devh, ctx.scratch, 900000 + k, cfg, c["ops"])
+        V.case(("corpus", c["config"], tuple(c["ops"])), nontrivial=True); V.count("corpus-rdev-monitor")
+        case = dict(config=c["config"], ops=[x if len(x) < 300 else x[:300] + "...(%d chars)" % len(x) for x in c["ops"]], corpus=c.get("what", ""))
+        if rc != 0:
+            V.violation("daemon-aborts", "impl rc=%d" % rc, dict(case, stderr=e[-500:]), "the device layer aborts / crashes on a corpus history"); continue
+        for clause, site, detail in monitors(cfg, c["ops"], o, rc, consts, which):
+            V.violation(clause, site, case, detail)
+
+
 def run_devlayer(ctx, V, which, n_quick, n_thorough, pmsim_monitors, pmsim_styles, pmsim_n, extra_rule=""):
     consts, devh, enq, model = setup(ctx, V)
     n = n_quick if ctx.tier == "quick" else n_thorough
     # C08's directed histories are aimed at the repaired crash defects (F6 bytes >= 0x80 in telemetry, F7 empty capture, F9, F26, F32)
     cases = [(c, a, uniq_clients(o)) for c, a, o in C08.directed_cases(consts)] + directed(consts, ctx.rng) + [gen_case(ctx.rng, consts, "any") for _ in range(n)]
     correspond(ctx, V, cases, which, consts, devh, enq, model)
+    corpus_monitor_cases(ctx, V, which, consts, devh)
     rule_rdev = ("R-DEV (device layer of the scratch copy's device.c through dev_initial_connect/dev_enqueue_actions/dev_pre_poll/poll/dev_post_poll, STUB transports "
                  "on socket pairs, virtual clock) vs extracted Model.DevHarness, compared after EVERY pass (callbacks, bytes written, requested time-out, each "
                  "device's state/queue/exec stacks/buffers, every Arg): directed histories (time-out exactly at / 1 us around the deadline, peer close before every "
